@@ -39,7 +39,7 @@ CATALOGUE = ["tfdt", "mfhd", "trun-offset", "saio-offset", "init-box-mvhd", "ini
 
 
 def budget(tier: str) -> dict:
-    return {"runs": 1200, "wall_s": 80} if tier == "quick" else {"runs": 16000, "wall_s": 840}
+    return {"runs": 2400, "wall_s": 85} if tier == "quick" else {"runs": 24000, "wall_s": 840}
 
 
 def generate(seed: int, tier: str, index: int) -> dict:
